@@ -65,11 +65,24 @@ def sqrt_model(x):
     return math.sqrt(x)
 
 
-def float_model(x):
-    """float() that is the identity on symbolic scalars."""
-    if isinstance(x, SR):
-        return x
-    return builtins.float(x)
+class _FloatMeta(type):
+    def __instancecheck__(cls, obj):
+        return isinstance(obj, builtins.float)
+
+    def __subclasscheck__(cls, sub):
+        return issubclass(sub, builtins.float)
+
+
+class float_model(builtins.float, metaclass=_FloatMeta):
+    """Stands in for the builtin `float` in a module: float(x) is the identity on symbolic scalars and the builtin
+    conversion otherwise; isinstance(v, float) keeps its meaning; as a dtype it maps to object (so arrays can hold
+    symbolic entries)."""
+    def __new__(cls, x=0.0):
+        if isinstance(x, SR):
+            return x
+        if hasattr(x, 'x') and type(x).__name__ == 'AbsSq':
+            return builtins.abs(x.x)
+        return builtins.float(x)
 
 
 def abs_model(x):
